@@ -176,6 +176,13 @@ def oracle(rows):
                              % ((o["root"], o["tx"]), (o["acct"], o["child"]), o["height"], r.get("start"),
                                 " [ranged-drop-strands-inputs]" if below else ""))
             act = after["active"]
+            # the active account's records (the ones the scan's leading refresh looks at) carry the height the chain
+            # has the output at: confirmations and spendable figures are counted from it
+            for k, d in chain.items():
+                for o in by_commit.get(k, []):
+                    if o["root"] == act and o["status"] == 1 and o["height"] != d["height"]:
+                        fail("after the repair scan output %s of the active account is recorded at height %s, the chain has it at %s"
+                             % (k, o["height"], d["height"]))
             utxo = {(d["key"][0], d["key"][1], int(d["value"])) for d in r["chain"]}
             for o in after["outputs"]:
                 if o["root"] == act and o["status"] == 1 and (o["acct"], o["child"], int(o["value"])) not in utxo:
@@ -264,7 +271,7 @@ def run(tier, replay):
         else:
             kinds["pre-created-label:%s" % r.get("pre_label")] += 1
         for i in r.get("injected", []):
-            kinds["inject:%s" % ["delete", "spent", "locked", "unconfirmed", "unspent", "spent-other-height", "locked-other-height"][i[3]]] += 1
+            kinds["inject:%s" % ["delete", "spent", "locked", "unconfirmed", "unspent", "spent-other-height", "locked-other-height", "unspent-other-height"][i[3]]] += 1
     cov = dict(proof)
     cov.update({
         "evaluations": len(rows),
